@@ -395,6 +395,10 @@ func (b *box) makeEvidence(spec proto.EvidenceSpec) (types.Evidence, error) {
 	if val == nil {
 		return nil, fmt.Errorf("validator %s not in set at height %d", addr, spec.Height)
 	}
+	evTime := time.Unix(1600000000+spec.Height, 0).UTC()
+	if meta := b.bs.LoadBlockMeta(spec.Height); meta != nil {
+		evTime = meta.Header.Time
+	}
 	mk := func(tag byte) (*types.Vote, error) {
 		h := make([]byte, 32)
 		h[0] = tag
@@ -406,7 +410,7 @@ func (b *box) makeEvidence(spec proto.EvidenceSpec) (types.Evidence, error) {
 			Height:           spec.Height,
 			Round:            0,
 			BlockID:          types.BlockID{Hash: h, PartsHeader: types.PartSetHeader{Total: 1, Hash: ph}},
-			Timestamp:        time.Unix(1600000000+spec.Height, 0).UTC(),
+			Timestamp:        evTime,
 			ValidatorAddress: rawAddr,
 			ValidatorIndex:   idx,
 		}
@@ -462,7 +466,8 @@ func (b *box) doBlock(rc *proto.Recipe) proto.Resp {
 	for _, es := range rc.Evidence {
 		ev, err := b.makeEvidence(es)
 		if err != nil {
-			return proto.Resp{Op: "block", Err: err.Error(), Height: state.LastBlockHeight}
+			// the named validator was not in the set at that height: nothing to accuse
+			continue
 		}
 		evs = append(evs, ev)
 	}
@@ -473,6 +478,13 @@ func (b *box) doBlock(rc *proto.Recipe) proto.Resp {
 	proposer := state.Validators.GetProposer().Address
 	block, parts := state.MakeBlock(h, txs, commit, evs, proposer)
 	blockID := types.BlockID{Hash: block.Hash(), PartsHeader: parts.Header()}
+	if err := b.blockExec.ValidateBlock(state, block); err != nil && len(evs) > 0 && strings.Contains(strings.ToLower(err.Error()), "evidence") {
+		// the evidence is too old (or otherwise unacceptable to Tendermint): an
+		// honest proposer would not include it
+		evs = nil
+		block, parts = state.MakeBlock(h, txs, commit, evs, proposer)
+		blockID = types.BlockID{Hash: block.Hash(), PartsHeader: parts.Header()}
+	}
 	if err := b.blockExec.ValidateBlock(state, block); err != nil {
 		r := b.baseResp("block")
 		r.Err = "recipe produced an invalid block: " + err.Error()
